@@ -530,11 +530,11 @@ impl Model {
                 }
                 let (kind, k) = exit.split();
                 let old = matches!(op, FromFnOld { .. });
-                if old && kind == 3 {
-                    return Exp::Skip; // `continue` in from_fn! is a documented infinite loop
-                }
                 let k = k as usize;
-                let fires = kind != 0 && k >= 1 && k <= *n;
+                // `continue` in from_fn! re-runs the same index (an infinite loop for a stateless
+                // closure, as documented); the planned closure exits only on its k-th call, so the
+                // second attempt at that index completes and the outcome is the ordinary one
+                let fires = kind != 0 && k >= 1 && k <= *n && !(old && kind == 3);
                 if fires {
                     let made = if kind == 3 { n - 1 } else { k - 1 };
                     self.alloc(made, (0, 1));
@@ -555,12 +555,10 @@ impl Model {
                     return Exp::Skip;
                 }
                 let (kind, k) = exit.split();
-                if kind == 3 {
-                    return Exp::Skip; // `continue` in map! is a documented infinite loop
-                }
                 let Some(MObj::Arr(n, ids)) = self.objs[s].clone() else { unreachable!() };
                 let k = k as usize;
-                let fires = kind != 0 && k >= 1 && k <= n;
+                // `continue` in map! re-runs the same index (see from_fn! above)
+                let fires = kind != 0 && kind != 3 && k >= 1 && k <= n;
                 if fires {
                     self.alloc(k - 1, (0, 1));
                     if kind == 4 {
@@ -850,11 +848,9 @@ pub fn sweep_build(want: &dyn Fn(u64) -> bool, names: bool) -> (Vec<(String, FCa
                 for typed in [false, true] {
                     out.emit(&|| format!("from_fn_/typed={typed}/{ename}/N={n}/k={k}"), vec![FOp::FromFnNew { n, exit: mk(k), typed }]);
                 }
-                if ename != "continue" {
-                    out.emit(&|| format!("map!/{ename}/N={n}/k={k}"), vec![FOp::NewArray { n }, FOp::MapOld { o: 0, exit: mk(k) }]);
-                    for typed in [false, true] {
-                        out.emit(&|| format!("from_fn!/typed={typed}/{ename}/N={n}/k={k}"), vec![FOp::FromFnOld { n, exit: mk(k), typed }]);
-                    }
+                out.emit(&|| format!("map!/{ename}/N={n}/k={k}"), vec![FOp::NewArray { n }, FOp::MapOld { o: 0, exit: mk(k) }]);
+                for typed in [false, true] {
+                    out.emit(&|| format!("from_fn!/typed={typed}/{ename}/N={n}/k={k}"), vec![FOp::FromFnOld { n, exit: mk(k), typed }]);
                 }
             }
         }
